@@ -120,13 +120,14 @@ class Orders:
                     if f.attr in ("sort_values", "sort_index"):
                         return "SORTED"
                     if f.attr in ("unique", "to_numpy", "astype", "copy", "reset_index", "loc", "dropna", "fillna",
-                                  "flatten", "eq", "isin", "mul", "div", "add", "sub", "pow", "abs", "to_frame"):
+                                  "flatten", "eq", "isin", "mul", "div", "add", "sub", "pow", "abs", "to_frame",
+                                  "get_level_values", "to_series", "tolist", "to_list", "ravel", "droplevel"):
                         return recv
                     return None
                 if recv in ("GROUPED", "SORTED", "LADDER"):
                     if f.attr in REDUCERS:
                         return "CLEAN"
-                    if f.attr in ("to_numpy", "astype", "copy", "flatten"):
+                    if f.attr in ("to_numpy", "astype", "copy", "flatten", "ravel", "to_series", "tolist", "to_list"):
                         return recv
                     return None
             return None
